@@ -253,7 +253,11 @@ func (m *orderedMap) Get(key string) expiringRecord {
 
 func (m *orderedMap) Keys() []string {
 	sort.Strings(m.keys)
-	return m.keys
+	// return a copy: callers delete entries while ranging over the returned keys,
+	// and Delete shifts m.keys in place
+	keys := make([]string, len(m.keys))
+	copy(keys, m.keys)
+	return keys
 }
 
 func (m *orderedMap) Delete(key string) {
